@@ -19,7 +19,7 @@ k<0 or k>n, an error or the whole list for k=0.
 """
 import itertools
 
-from ..core import Siblings, WholeFloats, Sub, fail, lit, isnum
+from ..core import Siblings, WholeFloats, Sub, fail, lit, isnum, scale
 
 # delivery-channel differential (core.Env): of every 2 evaluations that bind variables, one is repeated with the
 # values handed in by the cell/range listeners and one with the values returned by custom functions; outcomes must agree
@@ -738,4 +738,55 @@ class LookupSiblings(Siblings):
     ]
 
 
-SUBS = [Choose(), IndexGrid(), IndexVector(), MatchExact(), MatchSorted(), IndexMatch(), AfterFloatUse(), LookupWholeFloats(), LookupSiblings()]
+
+class LookupScale(Sub):
+    name = 'c18.scale'
+    rule = ('size ladder of the array length n: INDEX at the first, middle, last and first-outside position of a vector '
+            '[101..100+n] (host list, column, row, n <= 257 literal), of an n x 2 and a 2 x n grid; MATCH type 0 of the last and of '
+            'an absent item, type 1 / -1 of the last item and of values between items on sorted vectors; CHOOSE with n <= 254 '
+            'values; INDEX(a, MATCH(x, a, 0)) = x; non-trivial = all')
+    min_cases = 40
+    min_nontrivial = 40
+
+    def cases(self, tier, unit):
+        for n in scale(tier):
+            yield [n]
+
+    def check(self, env, case):
+        n = case[0]
+        env.nt()
+        v = [100 + i for i in range(1, n + 1)]
+        mid = (n + 1) // 2
+        vars_ = {'xv': v, 'xcol': [[x] for x in v], 'xrow': [v], 'xd': v[::-1], 'xg': [[x, -x] for x in v], 'xh': [v, [-x for x in v]],
+                 'xt': ['t%d' % i for i in range(1, n + 1)]}
+        P = []
+        for a in ('xv', 'xcol', 'xrow'):
+            P += [('INDEX(%s,1)' % a, 101), ('INDEX(%s,%d)' % (a, mid), 100 + mid), ('INDEX(%s,%d)' % (a, n), 100 + n),
+                  ('INDEX(%s,%d)' % (a, n + 1), 'err'), ('MATCH(%d,%s,0)' % (100 + n, a), n), ('MATCH(%d,%s,0)' % (100 + n + 1, a), '#N/A'),
+                  ('MATCH(%d,%s,1)' % (100 + n, a), n), ('MATCH(100.5+%d,%s,1)' % (mid, a), mid), ('MATCH(9999,%s,1)' % a, n),
+                  ('INDEX(%s,MATCH(%d,%s,0))' % (a, 100 + mid, a), 100 + mid)]
+        P += [('MATCH(101,xd,-1)', n), ('MATCH(100.5,xd,-1)', n), ('MATCH(%d,xd,-1)' % (100 + n), 1), ('MATCH("T%d",xt,0)' % n, n),
+              ('MATCH("t%d*",xt,0)' % n, n), ('INDEX(xt,%d)' % n, 't%d' % n),
+              ('INDEX(xg,%d,2)' % n, -(100 + n)), ('INDEX(xg,%d,1)' % mid, 100 + mid), ('INDEX(xg,%d,1)' % (n + 1), 'err'),
+              ('INDEX(xh,2,%d)' % n, -(100 + n)), ('INDEX(xh,1,%d)' % mid, 100 + mid), ('INDEX(xh,2,%d)' % (n + 1), 'err'),
+              ('SUM(INDEX(xg,0,1))', sum(v)), ('SUM(INDEX(xh,2,0))', -sum(v))]
+        if n <= 257:
+            L = '{' + ','.join(str(x) for x in v) + '}'
+            P += [('INDEX(%s,%d)' % (L, n), 100 + n), ('MATCH(%d,%s,0)' % (100 + n, L), n)]
+        if n <= 254:
+            args = ','.join(str(x) for x in v)
+            P += [('CHOOSE(%d,%s)' % (n, args), 100 + n), ('CHOOSE(1,%s)' % args, 101), ('CHOOSE(%d,%s)' % (n + 1, args), 'err')]
+        out = []
+        for f, want in P:
+            o = env.evo(f, dict(vars_))
+            ok = (o[0] == 'e') if want == 'err' else ((o == ['e', want]) if isinstance(want, str) and want.startswith('#') else o == ['v', want])
+            if not ok:
+                out.append(fail('%s on vectors / grids of %d items (xv = [101..%d], xd reversed, xg %d x 2, xh 2 x %d) gives %s, expected %s' % (
+                    f if len(f) < 90 else f[:50] + ' ... ' + f[-25:], n, 100 + n, n, n, repr(o)[:100], 'an error' if want == 'err' else repr(want)),
+                    want, repr(o)[:300]))
+                if len(out) >= 3:
+                    break
+        return out
+
+
+SUBS = [Choose(), IndexGrid(), IndexVector(), MatchExact(), MatchSorted(), IndexMatch(), AfterFloatUse(), LookupWholeFloats(), LookupSiblings(), LookupScale()]
